@@ -695,6 +695,12 @@ v("C18", "airspace-account-after", "break", AIRSPACE,
             if wireless_interface != sender_network_interface and wireless_interface.enabled:
                 wireless_interface.receive_frame(frame)
         self.bandwidth_load[sender_network_interface.frequency.frequency_hz] += frame.size_Mbits''', "R18.4", None)
+C.setdefault("C18", []).append({"id": "benign-extract-method", "kind": "benign", "file": BASE, "rule": None,
+                                "what": "accounting moved into a private helper called from transmit_frame",
+                                "edits": [{"old": "        load_before = self.current_load\n        self.current_load += frame_size\n",
+                                           "new": "        load_before = self.current_load\n        self._account(frame_size)\n"},
+                                          {"old": "    def __str__(self) -> str:\n        return f\"{self.endpoint_a}<-->{self.endpoint_b}\"",
+                                           "new": "    def _account(self, amount: float) -> None:\n        self.current_load += amount\n\n    def __str__(self) -> str:\n        return f\"{self.endpoint_a}<-->{self.endpoint_b}\""}]})
 v("C18", "benign-admission-swapped", "benign", BASE,
   "            return self.current_load + frame.size_Mbits <= self.bandwidth",
   "            return self.bandwidth >= frame.size_Mbits + self.current_load", None, "operands swapped")
